@@ -1,6 +1,6 @@
 (* C05 — Fills never breach the order's limit; fill-or-kill is all-or-nothing.  Statements only. *)
 From Coq Require Import ZArith List Bool.
-From V Require Import Model.Num Model.Status Model.Sim Model.SimLoop Model.SimGuard Model.Examples Proofs.SimPlaceP Proofs.SimPlaceP2 Proofs.SimRunP Proofs.SimLimitRunP.
+From V Require Import Model.Num Model.Status Model.Sim Model.SimLoop Model.SimGuard Model.Examples Proofs.SimPlaceP Proofs.SimPlaceP2 Proofs.SimRunP Proofs.SimLimitRunP Proofs.SimStaticP.
 Open Scope Z_scope.
 
 (* an ordinary limit order on arrival: the new fragments are a prefix of the opposing ladder, all at the
@@ -83,6 +83,14 @@ Theorem C05_run_respects_limits : forall tb cf n sc es s m o f,
   match so_side o with Back => so_price o <= f_price f | Lay => f_price f <= so_price o end.
 Proof. exact run_respects_limits. Qed.
 Print Assumptions C05_run_respects_limits.
+
+(* with static hypotheses only (see C04_run_conserves_static): configuration, initial state, books and script names *)
+Theorem C05_run_respects_limits_static : forall tb cf n sc es s,
+  cfg_ok_b cf = true -> initial_b s = true -> forallb (event_b2 sc n) es = true -> keys_ok_b sc n es = true ->
+  forall m o f, In m (s_markets (fold_left (step tb cf n sc) es s)) -> In o (mk_orders m) -> so_type o = TLimit -> so_fok o = false -> In f (so_frags o) ->
+  match so_side o with Back => so_price o <= f_price f | Lay => f_price f <= so_price o end.
+Proof. exact run_respects_limits_static. Qed.
+Print Assumptions C05_run_respects_limits_static.
 
 (* non-vacuity: a run satisfying both boolean hypotheses in which a BACK order at 2.00 is matched on arrival at 2.00 and later passively at 2.00 *)
 Definition c05_bk (pt : Z) (trd : list (Z * Z)) : book :=
